@@ -30,7 +30,7 @@ def gen_simcase(rng, tier):
         z = rng.random()
         if z < 0.2:
             kind = rng.choice(gen.CF_KINDS)
-            lp = (kind, gen.gen_hp(rng, kind)) if kind in ("greedy", "ucb", "softmax") else ((kind, None) if kind == "thompson" else (kind,))
+            lp = (kind, gen.gen_hp(rng, kind)) if kind in ("greedy", "ucb", "softmax") else ((kind, gen.gen_binz(rng, arms) if rng.random() < 0.5 else None) if kind == "thompson" else (kind,))
             npol = None
         else:
             npk = rng.choice(["radius", "knearest", "radius", "knearest", "lsh", "none"])
@@ -42,7 +42,8 @@ def gen_simcase(rng, tier):
             if kind in gen.LIN_KINDS:
                 lp = gen.gen_lin_lp(rng, kind, scale_ok=False)
             elif kind == "thompson":
-                lp = (kind, None)
+                # a binarizer (threshold / flip / greater-than / constant; flip is not idempotent on {0,1}) in half of the cases
+                lp = (kind, gen.gen_binz(rng, arms) if rng.random() < 0.5 else None)
             elif kind in ("greedy", "ucb", "softmax"):
                 lp = (kind, 0.0 if (kind == "greedy" and rng.random() < 0.6) else gen.gen_hp(rng, kind))
             else:
@@ -70,7 +71,7 @@ def gen_simcase(rng, tier):
     test_size = rng.choice([0.2, 0.3, 0.5, 0.25])
     n_test = n - int(n * (1 - test_size))
     bs = rng.choice([0, 0, 1, rng.randint(1, max(1, n_test)), n_test, max(1, n_test // 2), 2, 3])
-    if any(b["lp"][0] == "thompson" for b in bandits):
+    if any(b["lp"][0] == "thompson" and b["lp"][1] is None for b in bandits):
         rs = [float(int(abs(r)) % 2) for r in rs]
     if any(b["lp"][0] == "popularity" for b in bandits):
         rs = [abs(r) for r in rs]
